@@ -7,7 +7,32 @@ ROOT = os.path.dirname(os.path.dirname(os.path.abspath(__file__)))
 BASELINE = ("cd /repo && /venv/bin/python -m pytest -ra -q -p no:cacheprovider --timeout=900 "
             "--continue-on-collection-errors")
 
+PIPE_NOTE = ("Trusts: the dds-free reference shim (keep = call, load = path table in program order), the generator staying "
+             "inside the documented supported subset, canonical repr comparison. Real code: all of dds, CPython import/inspect, tmpfs.")
+
 CHECKS = {
+    "C01": dict(
+        engine="P",
+        category="exploration",
+        text=("Seeded programs x seeded histories (evaluations, every edit kind, revert, restart = real loss of all "
+              "in-memory state by killing the forked process, store switch, in-process mutation) on memory / local / "
+              "local+cache / noop stores; every value returned by dds is compared with a dds-free run of the same files. "
+              "Sampling of programs and histories; a clean batch is evidence, not proof."),
+        note=PIPE_NOTE,
+        technique="deterministic simulation: seeded edit/restart histories over forked processes, differential against a dds-free reference model",
+        design_ref="DESIGN.md 4, 7 (C01)",
+    ),
+    "C02": dict(
+        engine="P",
+        category="exploration",
+        text=("Same world as C01, histories biased to edits outside dependency cones, reverts, restarts and entry-style "
+              "switches. A kept body may execute only if no node with the same cone fingerprint (computed from the "
+              "generator's IR per DESIGN.md 4.1, independently of dds's hashing) was executed and stored before in that "
+              "store. Cannot alarm on correct code because the cone is at least as fine as dds's signature inputs."),
+        note=PIPE_NOTE + " Over-invalidation that stays inside a cone is by design not detected.",
+        technique="deterministic simulation: seeded histories with an execution-log oracle against IR-level cone fingerprints",
+        design_ref="DESIGN.md 4.1, 7 (C02)",
+    ),
     "C06": dict(
         engine="F",
         category="fault_enumeration",
